@@ -1,5 +1,64 @@
-"""C13 - Colour conversions scale to the nearest value and preserve the extremes  (metadata; generators live here and/or in props/C13_*.py parts)"""
-CLAIMED = False   # set True by the owner once ./check C13 passes with real theorems
+"""C13 - Colour conversions scale to the nearest value and preserve the extremes."""
+from common import *
+import colorgen
+
+CLAIMED = False
 LEVEL = 'proof'
 LEVEL_TEXT = 'TODO'
 LEVEL_NOTE = 'TODO'
+RULE = ('correspondence (extracted model vs real library): conv A B = storage of B::from(A::from(Raw::new(v))) for EVERY ordered pair of the 14 colour '
+        'types of the generated table (the 182 provided From impls + the reflexive one) on storage values v: all values for 8-bit storage, '
+        'arithmetic progressions (random start, stride in {1, 257, 4099, 65537}) covering 2^13 (quick) / 2^16 (thorough) values per pair for '
+        '16/32-bit storage, plus the first and last 256 storage values. search: p_conv A B evaluates the property on the implementation against '
+        'exact integer rounding (no reciprocal): black/white, every channel nearest (rgb->rgb, gray->gray, gray->rgb), rgb->gray = documented '
+        '8-bit luma of the 8-bit scaled channels scaled to the target + monotone in every channel, widen-then-narrow identity, '
+        'gray/rgb -> binary upper half, binary -> black/white; for every pair over ALL source values (2^24 for the 24-bit types). '
+        'Non-trivial = result line not empty; distinct = distinct case lines.')
+EXHAUSTIVE = {'quick': False, 'thorough': False}
+ASSUMPTIONS = []
+TRUSTED = []
+PARTIAL = []
+
+
+def cases(tier, rng):
+    types, _ = colorgen.load()
+    info = {t[0]: t for t in types}
+    per_pair = 2 ** 13 if tier == 'quick' else 2 ** 16
+    for a in info:
+        _, kind, sbits, bpp = info[a]
+        for b in info:
+            if sbits <= 8:
+                yield J('conv', a, b, 0, 256, 1)
+                continue
+            total = 2 ** sbits
+            yield J('conv', a, b, 0, 256, 1)
+            yield J('conv', a, b, 2 ** bpp - 256, 256, 1)
+            if sbits > bpp:
+                yield J('conv', a, b, total - 256, 256, 1)
+            n = per_pair // 256
+            for k in range(n):
+                stride = rng.choice([1, 257, 4099, 65537]) if bpp > 16 else rng.choice([1, 3, 17, 255])
+                span = 255 * stride
+                # stratified start: the k-th of n equal strata of the value space
+                lo = (2 ** bpp) * k // n
+                hi = max(lo + 1, min((2 ** bpp) * (k + 1) // n, total - span))
+                start = rng.randrange(lo, hi) if lo < hi and lo + span < total else rng.randrange(0, total - span)
+                yield J('conv', a, b, start, 256, stride)
+
+
+def search(tier, rng):
+    types, _ = colorgen.load()
+    info = {t[0]: t for t in types}
+    for a in info:
+        _, kind, sbits, bpp = info[a]
+        for b in info:
+            if a == b:
+                continue
+            if sbits <= 16:
+                yield J('p_conv', a, b, 0, 2 ** sbits, 1)
+            else:
+                # every colour value (2^bpp), in 16 chunks; plus storage values with the unused top byte set
+                for k in range(16):
+                    yield J('p_conv', a, b, k * 2 ** (bpp - 4), 2 ** (bpp - 4), 1)
+                yield J('p_conv', a, b, 2 ** sbits - 2 ** 16, 2 ** 16, 1)
+                yield J('p_conv', a, b, rng.randrange(2 ** bpp, 2 ** sbits - 2 ** 16 * 4099), 2 ** 16, 4099)
